@@ -157,6 +157,7 @@ func vOpen(name string) (*os.File, error) { return vOpenFile(name, os.O_RDONLY, 
 //gosmt:replace os.Remove
 func vRemove(name string) error {
 	vfsOps++
+	vFileAccess(true)
 	f := vfsLookup(name)
 	if f == nil || !f.exists {
 		return vErrNotExist
@@ -292,6 +293,7 @@ func vIteByte(c bool, a, b byte) byte { return byte(vIte(c, int(a), int(b))) }
 //gosmt:replace (*os.File).WriteAt
 func vFileWriteAt(f *os.File, b []byte, off int64) (int, error) {
 	vfsOps++
+	vFileAccess(true)
 	h := vh(f)
 	if h.closed {
 		return 0, vErrClosed
@@ -305,6 +307,7 @@ func vFileWriteAt(f *os.File, b []byte, off int64) (int, error) {
 //gosmt:replace (*os.File).ReadAt
 func vFileReadAt(f *os.File, b []byte, off int64) (int, error) {
 	vfsOps++
+	vFileAccess(false)
 	h := vh(f)
 	if h.closed {
 		return 0, vErrClosed
@@ -366,6 +369,7 @@ func vFileSeek(f *os.File, offset int64, whence int) (int64, error) {
 //gosmt:replace (*os.File).Truncate
 func vFileTruncate(f *os.File, size int64) error {
 	vfsOps++
+	vFileAccess(true)
 	h := vh(f)
 	if h.closed {
 		return vErrClosed
@@ -449,6 +453,7 @@ func vMmapUnmap(m *mmap.MMap) error {
 //gosmt:replace github.com/xujiajun/utils/filesystem.CopyDir
 func vCopyDir(src, dst string) error {
 	vfsOps++
+	vFileAccess(false)
 	s := vfsLookup(src)
 	if s == nil || !s.exists || !s.isDir {
 		return vErrNotExist
